@@ -145,6 +145,13 @@ func genShape(r *Rng, o *Out) structShape {
 			} else {
 				api = ""
 			}
+			if r.chance(1, 6) {
+				// a field the library must not see (no api tag) whose json name is that of
+				// a neighbour the library does see: every lookup by name has to skip it
+				api = ""
+				json = []string{"a", "b", "c", "d", "e"}[(i+1+r.IntN(2)*3)%5]
+				o.stat("shape.untagged-json-twin")
+			}
 		}
 		add(fmt.Sprintf("F%d", i), ft, json, api)
 	}
